@@ -29,10 +29,13 @@ import (
 )
 
 type Mut struct {
-	Kind string `json:"kind"` // none trunc flip set sat dup del
+	Kind string `json:"kind"` // none trunc flip set sat dup del field field2
 	Off  int    `json:"off"`
 	N    int    `json:"n"`
 	Val  int    `json:"val"`
+	Off2 int    `json:"off2"` // field2: a second bit field overwritten together with the first
+	N2   int    `json:"n2"`
+	Val2 int    `json:"val2"`
 }
 
 type Job struct {
@@ -115,6 +118,9 @@ func mutate(b []byte, m Mut) []byte {
 			}
 			c[m.Off+i] = v
 		}
+	case "field2": // two bit fields at once (a reserved code in one header field together with an unusual value in another)
+		c = mutate(c, Mut{Kind: "field", Off: m.Off, N: m.N, Val: m.Val})
+		c = mutate(c, Mut{Kind: "field", Off: m.Off2, N: m.N2, Val: m.Val2})
 	case "field": // overwrite the bit field [off, off+n) (bit positions) with a boundary pattern
 		for i := 0; i < m.N; i++ {
 			bit := 0
